@@ -11,6 +11,8 @@ From PowHsm Require Import Proofs.SrcLiftC09.
 From PowHsm Require Import Gen.SrcM.
 From PowHsm Require Import Proofs.SrcEquivDongleM.
 From PowHsm Require Import Proofs.SrcEquivPinM.
+From PowHsm Require Import Proofs.SrcEquivBringupM.
+From PowHsm Require Import Proofs.SrcLiftBringup.
 Open Scope N_scope.
 
 (* version compatibility: same major, firmware minor.patch lexicographically not newer than the manager's *)
@@ -167,5 +169,60 @@ Theorem C09_source_unlock_is_model :
          small_bytes pin ->
          srcm_HSM2Dongle__unlock self (VBytes pin) w = mres VBool (unlock KLedger pin w).
 Proof. exact (@srcm_unlock_ok). Qed.
+
+(* TIE BY TRANSLATION (device monad): initialize_device of ledger/protocol.py - connection, onboarded and mode checks, the bootloader branch with version, echo, retries, unlock, the PIN change with its try/except/finally, exit and re-connection, then the signer checks - as regenerated from the Python source text on this run, runs on EVERY world (any device script, connection outcomes, PIN object, random source) exactly as the model of the Ledger bring-up: same outcome and the same final world *)
+Theorem C09_source_initialize_device_is_model :
+  forall (fields : list (string * pv)) (w : world),
+         pin_small w ->
+         pin_new_small w ->
+         rand_small w ->
+         srcm_HSM2ProtocolLedger__initialize_device (proto_obj fields) w =
+         mres (fun _ : unit => VNone) (initialize_device KLedger w).
+Proof. exact (@srcm_initialize_device_ok). Qed.
+
+(* its bootloader branch alone *)
+Theorem C09_source_handle_bootloader_is_model :
+  forall (fields : list (string * pv)) (w : world),
+         pin_small w ->
+         pin_new_small w ->
+         rand_small w ->
+         srcm_HSM2ProtocolLedger___handle_bootloader (proto_obj fields) w =
+         mres (fun _ : unit => VNone) (handle_bootloader KLedger w).
+Proof. exact (@srcm_handle_bootloader_ok). Qed.
+
+(* hence for the translated source itself: the unlock command is sent at most once per bring-up *)
+Theorem C09_source_unlock_at_most_once :
+  forall (fields : list (string * pv)) (w : world),
+         bringup_hyps w ->
+         (count_unlock KLedger
+            (new_events w (snd (srcm_HSM2ProtocolLedger__initialize_device (proto_obj fields) w))) <=
+          1)%nat.
+Proof. exact (@src_bringup_unlock_at_most_once). Qed.
+
+(* an unlock APDU sent by the translated source is preceded, in order, by connection, onboarded answer, bootloader mode, supported UI version, correct echo and at least two PIN retries *)
+Theorem C09_source_unlock_only_when_safe :
+  forall (fields : list (string * pv)) (w : world) (n1 : list event) 
+           (u : event) (n2 : list event),
+         bringup_hyps w ->
+         new_events w (snd (srcm_HSM2ProtocolLedger__initialize_device (proto_obj fields) w)) =
+         n1 ++ u :: n2 -> is_unlock KLedger u = true -> InOrder (safe_pre KLedger) n1.
+Proof. exact (@src_bringup_unlock_only_when_safe). Qed.
+
+(* the translated bring-up returns normally - the only case in which the manager starts serving - only under the serving condition *)
+Theorem C09_source_serves_implies :
+  forall (fields : list (string * pv)) (w w' : world) (v : pv),
+         bringup_hyps w ->
+         srcm_HSM2ProtocolLedger__initialize_device (proto_obj fields) w = (XOk v, w') ->
+         Serves KLedger (pin w) (new_events w w').
+Proof. exact (@src_bringup_serves_implies). Qed.
+
+(* and in every other case it ends in an exception (the manager stops without serving) *)
+Theorem C09_source_otherwise_raises :
+  forall (fields : list (string * pv)) (w : world),
+         bringup_hyps w ->
+         (exists w' : world, initialize_device KLedger w = (Ok tt, w')) \/
+         (exists (e : exn) (w' : world),
+            srcm_HSM2ProtocolLedger__initialize_device (proto_obj fields) w = (XRaise e, w')).
+Proof. exact (@src_bringup_otherwise_raises). Qed.
 
 Example C09_nonvacuous : True. Proof. exact I. Qed. (* concrete bring-ups closed by vm_compute in Proofs/C09.v: Ledger bootloader reaching unlock and serving, retries = 1 stopping with no unlock APDU, SGX, signer 5.4.2 refused, PIN change stopping *)
